@@ -94,11 +94,15 @@ func LoadKnown(path string) []KnownFinding {
 		return nil
 	}
 	if err := json.Unmarshal(b, &f); err != nil {
-		fmt.Fprintf(os.Stderr, "known findings: %v\n", err)
+		fmt.Fprintf(Stderr, "known findings: %v\n", err)
 		os.Exit(2)
 	}
 	return f.Findings
 }
+
+// Stderr is the process' real standard error, captured before any world
+// redirects os.Stderr (emitter logs through it).
+var Stderr = os.Stderr
 
 var runStarted atomic.Int64 // unix nanos (real) when the current run began; 0 = idle
 var curSeed atomic.Uint64
@@ -108,7 +112,7 @@ func WorkerMain(t *testing.T) {
 	prop := os.Getenv("VERIF_PROP")
 	w := Registry[prop]
 	if w == nil {
-		fmt.Fprintf(os.Stderr, "no world for %q\n", prop)
+		fmt.Fprintf(Stderr, "no world for %q\n", prop)
 		os.Exit(2)
 	}
 	base := envU("VERIF_SEED", 1)
@@ -143,7 +147,7 @@ func WorkerMain(t *testing.T) {
 			time.Sleep(500 * time.Millisecond)
 			if s := runStarted.Load(); s != 0 && time.Since(time.Unix(0, s)) > w.RunTimeout {
 				os.WriteFile(out+".hang", []byte(fmt.Sprintf("%d", curSeed.Load())), 0o644)
-				fmt.Fprintf(os.Stderr, "WATCHDOG: run seed=%d exceeded %v\n", curSeed.Load(), w.RunTimeout)
+				fmt.Fprintf(Stderr, "WATCHDOG: run seed=%d exceeded %v\n", curSeed.Load(), w.RunTimeout)
 				os.Exit(3)
 			}
 		}
@@ -285,12 +289,12 @@ func ReplayMain(t *testing.T) {
 	path := os.Getenv("VERIF_REPLAY")
 	b, err := os.ReadFile(path)
 	if err != nil {
-		fmt.Fprintln(os.Stderr, err)
+		fmt.Fprintln(Stderr, err)
 		os.Exit(2)
 	}
 	var rf ReplayFile
 	if err := json.Unmarshal(b, &rf); err != nil {
-		fmt.Fprintln(os.Stderr, err)
+		fmt.Fprintln(Stderr, err)
 		os.Exit(2)
 	}
 	w := Registry[rf.Property]
